@@ -1493,13 +1493,19 @@ func (r *Redis) ScriptLoad(script string) (string, error) {
 
 // ScriptLoadCtx 将脚本 script 添加到脚本缓存中，但并不立即执行这个脚本。
 // 返回脚本的 sha1 校验码。
-func (r *Redis) ScriptLoadCtx(ctx context.Context, script string) (string, error) {
-	node, err := getRedis(r)
-	if err != nil {
-		return "", err
-	}
+func (r *Redis) ScriptLoadCtx(ctx context.Context, script string) (val string, err error) {
+	// 与其他命令一样在断路器保护下执行：失败要计入断路器，断路器打开时不再访问服务端。
+	err = r.brk.DoWithAcceptable(func() error {
+		node, err := getRedis(r)
+		if err != nil {
+			return err
+		}
 
-	return node.ScriptLoad(ctx, script).Result()
+		val, err = node.ScriptLoad(ctx, script).Result()
+		return err
+	}, acceptable)
+
+	return
 }
 
 // Set 设置 key 的值。
